@@ -740,6 +740,15 @@ impl<'de> Visitor<'de> for EntitiesVisitor<'_> {
         if n != self.count {
             return Err(de::Error::invalid_length(n as usize, &self));
         }
+        // `World::spawn_column_batch_at` requires distinct IDs
+        let mut ids = self.out.iter().map(|e| e.id()).collect::<Vec<_>>();
+        ids.sort_unstable();
+        if ids.windows(2).any(|w| w[0] == w[1]) {
+            return Err(de::Error::invalid_value(
+                Unexpected::Other("repeated entity ID"),
+                &"distinct entity IDs",
+            ));
+        }
         Ok(())
     }
 }
